@@ -468,7 +468,7 @@ def shared_tag_case(rng) -> dict:
 
 
 # ---------------------------------------------------------------- entry
-GUARDS = {1: "F13a", 2: "F13b", 3: "F01e"}
+GUARDS = {1: "F13a", 2: "F13b"}   # F01e is fixed
 
 
 def main(chk: Check, replay: dict | None = None) -> int:
